@@ -21,6 +21,9 @@ Definition m_file_list := file_list.
 Definition m_scan := scan scan_parms_py.
 Definition m_rpal := remove_pure_action_lines py_isspace.
 Definition m_get_txt_pos := get_txt_pos.
+Definition m_run_tex2txt (nosp : bool) :=
+  run_tex2txt (if nosp then with_nosp py_tables tbl_nosp_skip tbl_nosp_macros
+               else py_tables) py_word.
 Definition m_run_parse (nosp : bool) :=
   run_parse (if nosp then with_nosp py_tables tbl_nosp_skip tbl_nosp_macros
              else py_tables).
@@ -29,5 +32,5 @@ Definition m_generate_html :=
                 sh_number_style.
 Definition m_protect_html := protect_html.
 
-Extraction "../_build/model.ml" m_run_parse m_scan m_rpal m_get_txt_pos m_generate_html m_protect_html m_file_list m_run_report m_map_match_position m_run_assemble m_replace_phrases m_finditer m_parse_rule
+Extraction "../_build/model.ml" m_run_tex2txt m_run_parse m_scan m_rpal m_get_txt_pos m_generate_html m_protect_html m_file_list m_run_report m_map_match_position m_run_assemble m_replace_phrases m_finditer m_parse_rule
   m_single_letter_matches m_equation_messages m_create_context.
